@@ -1158,7 +1158,7 @@ func suiteAlpha(rep *Report) error {
 	// ---- (c) END-TO-END ----
 	var cases []e2eCase
 	eidx := uint64(0)
-	alphaClasses := []int{AlphaBinary, AlphaFewLevels, AlphaGradient, AlphaNoise, AlphaAllZero, AlphaSemiFlat}
+	alphaClasses := []int{AlphaBinary, AlphaFewLevels, AlphaGradient, AlphaNoise, AlphaAllZero, AlphaSemiFlat, AlphaSparse}
 	smallSizes := [][2]int{{1, 1}, {1, 19}, {23, 1}, {2, 2}, {7, 5}, {16, 16}, {17, 33}, {33, 17}, {40, 24}, {64, 64}, {64, 3}, {5, 61}}
 	add := func(w, h, cls, acls int, o e2eOpts) {
 		eidx++
